@@ -153,6 +153,7 @@ def rootsOf (usages : List TExpr) : List TName := (usages.flatMap TExpr.refs).er
 
 /-- components of a project: the declarations reached from the usage sites, each mapped on its own -/
 def components (ds : List Decl) (usages : List TExpr) : List (TName × Component) :=
-  (closure ds ds.length (rootsOf usages)).filterMap fun n => (lookup ds n).map fun d => (n, d.component)
+  -- `ds.length + 1` rounds always reach a closed set (Lemmas/TypesFuel: `closure_closed`)
+  (closure ds (ds.length + 1) (rootsOf usages)).filterMap fun n => (lookup ds n).map fun d => (n, d.component)
 
 end Gleece.Types
